@@ -86,8 +86,17 @@ func runLargeBatch(rc *RunCtx) *RunResult {
 	want := map[string]*operation.QueuedOperation{}
 	counts := map[operation.Type]int{}
 
+	var prevRec *workload.Key
+
 	for i := 0; i < n; i++ {
 		upd, rec := kg.New(workload.Ed25519, false), kg.New(workload.Ed25519, false)
+
+		// now and then a DID shares its recovery key with the previous one (one controller, several DIDs)
+		if prevRec != nil && T.Draw(6, "large.sharedrec") == 0 {
+			rec = prevRec
+		}
+
+		prevRec = rec
 		patches, _ := workload.ToPatches([]workload.PatchDesc{{Kind: workload.AddKey, IDs: []string{"k1"}, Mark: fmt.Sprintf("m%d", i)}})
 
 		create, err := workload.Build(&workload.OpSpec{Type: operation.TypeCreate, Hash: simenv.SHA2_256, NextUpdate: upd, NextRecovery: rec, Patches: patches, AnchorOrigin: "o"})
